@@ -464,8 +464,9 @@ class IPPO(MultiAgentRLAlgorithm):
             if not self.training and isinstance(agent_space, spaces.Box):
                 if actor.squash_output:
                     action = actor.scale_action(action)
-                else:
-                    action = np.clip(action, agent_space.low, agent_space.high)
+
+                # (rescaling a saturated output can overshoot the bound by one ulp)
+                action = np.clip(action, agent_space.low, agent_space.high)
 
             action_dict[shared_id] = action
             action_logprob_dict[shared_id] = log_prob.cpu().data.numpy()
